@@ -108,10 +108,12 @@ Definition g_exec_move (gi : ginput) (s : state) (mv : move) : state * result :=
       end
   end.
 
+Definition g_move_executable (gi : ginput) (s : state) (mv : move) : bool :=
+  negb (unit_planned (gi_inp gi) s (mv_unit mv)) && negb (unit_fixed gi (mv_unit mv)) &&
+  negb (estimate_violated (gi_inp gi) s mv).
+
 Definition g_exec_checked (gi : ginput) (s : state) (mv : move) : state * result :=
-  if negb (unit_planned (gi_inp gi) s (mv_unit mv)) && negb (unit_fixed gi (mv_unit mv)) &&
-     negb (estimate_violated (gi_inp gi) s mv)
-  then g_exec_move gi s mv else (s, NotExecutable).
+  if g_move_executable gi s mv then g_exec_move gi s mv else (s, NotExecutable).
 
 (* solutionPlanStopsUnitImpl.UnPlan *)
 Definition g_unplan_unit (gi : ginput) (s : state) (u : nat) : state * result :=
@@ -310,9 +312,13 @@ Fixpoint prune_route (fuel : nat) (gi : ginput) (v : nat) (s : state) (infeasibl
               let root := top_of gi (unit_of_stop inp (nth p stops 0%nat)) in
               let gone := flat_map (fun m => if unit_planned inp s m then iu_stops (get_unit inp m) else [])
                                    (members_of gi root) in
+              (* detach only unlinks the stops: on vehicle v the loop re-propagates from the first
+                 stop; on any OTHER vehicle the remaining cells keep their cached values *)
               let s' := fold_left (fun st w =>
-                          set_route st w (from_scratch inp w (filter (fun x => negb (mem_nat x gone))
-                                                                   (route_stops (get_route st w)))))
+                          if Nat.eqb w v
+                          then set_route st w (from_scratch inp w (filter (fun x => negb (mem_nat x gone))
+                                                                          (route_stops (get_route st w))))
+                          else set_route st w (filter (fun c => negb (mem_nat (c_stop c) gone)) (get_route st w)))
                           (seqn (length (st_routes s))) s in
               prune_route fuel' gi v s' (coll_add root infeasible)
           end
